@@ -541,6 +541,14 @@ class C02(Property):
         "space and has one entry per species) because mode True checks no residual",
         "that linsolve + symbol surgery / CBC do hand back a positive multiple of the ray (the premise of gate_complete_on_ray) and that "
         "generated instances are single-ray (exact rank in the harness): per instance, planted answers",
+        "`underdetermined=1` (deprecated spelling of None, `is 1` test + DeprecationWarning): the driver maps it to the `smallest` mode; that the code does "
+        "the same is decided by correspondence and oracle (same claims as for None), there is no theorem about the argument decoding",
+        "the parameter-elimination surgery between linsolve and the gate (incl. its `raise ValueError('Bug, please report')` and the `symb / cd` rescaling) "
+        "is part of the solver parameter: executed by three-ray instances and by an injected non-linear solver answer, judged by the oracle only "
+        "(balanced identically / refused with ValueError)",
+        "`_solve_balancing_ilp_pulp` called directly (Rational and sympy-Float matrices, the `mult = 1` fallback): oracle only (positive multiple of the "
+        "planted vector in column order); `Substance.composition_keys(skip_keys=...)`: oracle only (balance_stoichiometry never passes skip_keys); a table "
+        "entry without composition (None) is sent to the model as the empty composition (only non-participating entries are generated)",
         "process-level state (e.g. a cache keyed by species name) cannot be expressed by a pure model: covered by histories in the oracle only",
     )
     anchors = (('chempy/chemistry.py', 'balance_stoichiometry'), ('chempy/chemistry.py', '_solve_balancing_ilp_pulp'),
@@ -717,7 +725,10 @@ class C02(Property):
                 add({'op': 'setup', 'kind': 'full-rank', 'inst': inst2})
             elif r < 0.85:
                 # never large: CBC (called by chempy without a time limit) can run for minutes on 11+ species two-ray instances
-                inst, x = gen_planted(rng, tier, want_nullity=rng.choice([2, 2, 3]))     # 3: parameters with fractional coefficients get rescaled
+                nul = rng.choice([2, 2, 3])          # 3: parameters with fractional coefficients get rescaled (`symb / cd`)
+                # three-ray instances with integer / dyadic amounts only (CBC, called without time limit, wandered > 15 s on a 4-species
+                # one-row instance with amounts 9/4, -13/7, 101/21: performance, notes finding 8)
+                inst, x = gen_planted(rng, tier, want_nullity=nul, dyadic=(nul == 3))
                 if sum(x) > 14:
                     continue
                 inst = decorate(rng, float_stream(rng, inst))
